@@ -27,6 +27,7 @@ def run(ctx, rep):
     rep.assume("NUL inside an argument is outside the property's alphabet")
     _codecs.fresh_output_files(F, rep, "C18.fresh-file", ["compiler", "bytecode_dev_transpiler"], 2)
     from props import _strunits
+    source_name_is_a_whole_suffix(F, rep)
     records_in_order(F, rep)
     _strunits.unit_mix(F, rep, "C18.index-unit", ["bytecode_dev_transpiler", "compiler"])
     rep.assume("a character not compared against any constant by the reader behaves like the class representative")
@@ -213,3 +214,38 @@ def records_in_order(F, rep, rule="C18.framing"):
            ("transpile_file calls %s: records are collected by label, so two blocks of one label are merged and the others re-ordered; the loader then binds "
             "the label to another body than `run` does" % mir.short(hits[0][2])) if hits else "", hits[0][1].span if hits else g.span, fn=g.path,
            key=rule + "|records-in-order")
+
+
+def source_name_is_a_whole_suffix(F, rep, rule="C18.source-name"):
+    """`mscript transpile X` derives the output path from X by replacing the `.transpiled.mmm` ending with `.mmm`; when X does not really end in it,
+    `with_extension("").with_extension("mmm")` gives X itself and the transpiler truncates its own input before reading it (`piled.mmm`, `d.mmm`,
+    `mmm` all pass a comparison that zips the reversed strings: zip stops at the shorter one).  The predicate that admits a source name compares
+    the *whole* ending: in is_path_a_transpiled_source (and its inner functions) a pairwise walk over two zipped strings is allowed only next to a
+    comparison of their lengths; `str::ends_with` / `strip_suffix` / a sub-slice compare need none."""
+    import re
+    g = [f for f in F.all_fns() if re.search(r"bytecode_dev_transpiler::is_path_a_transpiled_source($|::)", f.path)]
+    if not g:
+        raise AnchorMissing("bytecode_dev_transpiler::is_path_a_transpiled_source")
+    zips, lens = [], []
+    for f in g:
+        for c in f.calls():
+            cal = mir.strip_generics(c.callee() or "")
+            if cal.endswith("Iterator::zip"):
+                zips.append((f, c))
+            if re.search(r"str>::len$|String::len$|Iterator::count$|<impl str>::len$", cal):
+                lens.append((f, c))
+    compared = False
+    for f in g:
+        ll = {c.dst["l"] for ff, c in lens if ff is f and c.dst}
+        der = f.derived(ll) if ll else {}
+        for bi, si, dst, rv, s_ in f.assigns():
+            if "bin" in rv and rv["bin"] in ("Eq", "Ne", "Lt", "Le", "Gt", "Ge", "Sub", "SubWithOverflow") and (op_local(rv["l"]) in der and op_local(rv["r"]) in der):
+                compared = True
+        for c in f.calls():
+            if re.search(r"checked_sub$|saturating_sub$", mir.strip_generics(c.callee() or "")) and any(op_local(a) in der for a in c.args):
+                compared = True
+    bad = bool(zips) and not compared
+    rep.ob(rule, "a path is admitted as a transpile source only when it ends in the whole `.transpiled.mmm`", "violated" if bad else "ok",
+           ("the ending is compared by zipping the two reversed strings (%d zip) without comparing their lengths: every suffix of `.transpiled.mmm` passes, the output path "
+            "is then the input path, and `transpile piled.mmm` truncates its own input" % len(zips)) if bad else "", (zips[0][1].span if zips else g[0].span), fn=g[0].path,
+           key=rule + "|whole-suffix")
